@@ -316,6 +316,7 @@ func (e *Exec) chanClose(st *State, instr ssa.Instruction, ch Val) {
 	e.nopanicAlways(st, "doubleclose", instr, tNot(e.chanClosed(st, c, false, nil)))
 	s := arr(SInt, SBool)
 	a := e.curArr(st, "chan#closed", s)
+	st.wrote("chan#closed", c)
 	e.setArr(st, "chan#closed", s, app("store", a, c, "true"))
 	st.counts["close"]++
 }
@@ -556,6 +557,7 @@ func (e *Exec) listElem(st *State, l, i string, old bool, oh map[string]string) 
 
 func (e *Exec) listSet(st *State, which, sort, l, v string) {
 	key := "list#" + which
+	st.wrote(key, l)
 	a := e.curArr(st, key, sort)
 	e.setArr(st, key, sort, app("store", a, l, v))
 }
@@ -589,6 +591,7 @@ func (e *Exec) ctxCancelled(st *State, c string, old bool, oh map[string]string)
 
 func (e *Exec) setCtxCancelled(st *State, c string) {
 	s := arr(SInt, SBool)
+	st.wrote("ctx#cancelled", c)
 	a := e.curArr(st, "ctx#cancelled", s)
 	e.setArr(st, "ctx#cancelled", s, app("store", a, c, "true"))
 }
